@@ -11,11 +11,24 @@ Inductive wop :=
 | WUpdate (k v : bytes) (prev rev : N) (ok : bool)
 | WDelete (k : bytes) (prev rev : N) (ok : bool).
 
+(* etcd RangeResponse of the list path (pkg/server/etcd/kv.go Range, backendshim.go List): header revision,
+   kvs (key, value, mod revision), More, Count *)
+Inductive etcd_resp := EPanic | EErr | ERange (header : N) (kvs : list okv) (more : bool) (count : N).
+
+(* backendShim.List: the Backend.List response reshaped; Count = number of kvs, + 1 when More *)
+Definition etcd_shape (r : list_resp) : etcd_resp :=
+  match r with
+  | LPanic => EPanic
+  | LErr _ => EErr
+  | LResp h kvs more => ERange h kvs more (N.of_nat (length kvs) + (if more then 1 else 0))
+  end.
+
 Inductive c03_read :=
 | QGet (k : bytes) (rev : N) (out : get_resp)
 | QList (a b : bytes) (rev : N) (limit : Z) (out : list_resp)
 | QCount (a b : bytes) (out : count_resp)
-| QStream (a b : bytes) (rev : N) (out : list smsg).   (* ListByStream (Enc a 0) (Enc b 0) rev: all messages *)
+| QStream (a b : bytes) (rev : N) (out : list smsg)    (* ListByStream (Enc a 0) (Enc b 0) rev: all messages *)
+| QEtcd (a b : bytes) (rev : N) (limit : Z) (out : etcd_resp).  (* etcd Range with RangeEnd: RPCServer.Range -> backendShim.List *)
 
 (* one phase: the writes acknowledged since the previous phase, the revision of a Compact issued after
    them (0 = none), then — with no write in flight completing — the raw dump, the committed revision
@@ -147,6 +160,14 @@ Definition count_resp_eqb (x y : count_resp) : bool :=
   | _, _ => false
   end.
 
+Definition etcd_resp_eqb (x y : etcd_resp) : bool :=
+  match x, y with
+  | EPanic, EPanic => true
+  | EErr, EErr => true
+  | ERange h kvs m c, ERange h' kvs' m' c' => (h =? h') && list_eqb okv_eqb kvs kvs' && Bool.eqb m m' && (c =? c')
+  | _, _ => false
+  end.
+
 (* ---------- streams ---------- *)
 Definition smsg_eqb (x y : smsg) : bool :=
   (m_rev x =? m_rev y) && list_eqb okv_eqb (m_kvs x) (m_kvs y) && Bool.eqb (m_more x) (m_more y) && Bool.eqb (m_err x) (m_err y).
@@ -198,6 +219,7 @@ Definition read_check (ck : bytes) (compat : bool) (parts : partition_fn) (ph : 
   | QList a b rev limit out => list_resp_eqb (list_model s fv parts (ph_cur ph) a b rev limit) out
   | QCount a b out => count_resp_eqb (count_model s fv parts compat (ph_cur ph) a b) out
   | QStream a b rev out => stream_check (stream_model s fv parts (ph_cur ph) (encode a 0) (encode b 0) rev) out
+  | QEtcd a b rev limit out => etcd_resp_eqb (etcd_shape (list_model s fv parts (ph_cur ph) a b rev limit)) out
   end.
 
 Definition phase_check (ck : bytes) (compat : bool) (parts : partition_fn) (ph : c03_phase) : bool :=
@@ -263,6 +285,14 @@ Definition read_meets (srt : bool) (rng : bytes -> bytes -> list okv -> list okv
       stream_shape (eff_rev rev cur) out
       (* one partition: in key order; several: the workers' batches interleave, compared as a multiset *)
       && list_eqb okv_eqb (stream_order srt (stream_kvs out)) (rng a b (snapshot_spec hv (eff_rev rev cur)))
+  | QEtcd a b rev limit out =>
+      match out with
+      | ERange _ kvs more count =>
+          let '(ekvs, emore) := limited limit (rng a b (snapshot_spec hv (eff_rev rev cur))) in
+          list_eqb okv_eqb kvs ekvs && Bool.eqb more emore        (* more exactly when the limit cut the result short *)
+          && (count =? N.of_nat (length ekvs) + (if emore then 1 else 0))
+      | _ => false
+      end
   end.
 
 Definition bounds_alpha (q : c03_read) : bool :=
@@ -271,6 +301,7 @@ Definition bounds_alpha (q : c03_read) : bool :=
   | QList a b _ _ _ => alphab a && alphab b
   | QCount a b _ => alphab a && alphab b
   | QStream a b _ _ => alphab a && alphab b
+  | QEtcd a b _ _ _ => alphab a && alphab b
   end.
 
 Definition max_rev (hv : list (@vrec (option bytes))) : N := fold_right (fun x m => N.max (vr_rev x) m) 0 hv.
@@ -285,6 +316,8 @@ Definition in_scope (compat : bool) (hv : list (@vrec (option bytes))) (cur floo
       bltb a b && (eff_rev rev cur <=? cur) && (floor <=? eff_rev rev cur) && (0 <=? limit)%Z && (limit <? max_i64)%Z
   | QCount a b _ => compat && bltb a b && (floor <=? cur)
   | QStream a b rev _ => bltb a b && (eff_rev rev cur <=? cur) && (floor <=? eff_rev rev cur)
+  | QEtcd a b rev limit _ =>
+      bltb a b && (eff_rev rev cur <=? cur) && (floor <=? eff_rev rev cur) && (0 <=? limit)%Z && (limit <? max_i64)%Z
   end.
 
 Definition read_verdict (srt : bool) (hv : list (@vrec (option bytes))) (compat : bool) (cur floor : N) (q : c03_read) : option N :=
@@ -319,7 +352,7 @@ Definition same_answer (srt : bool) (q1 q2 : c03_read) : bool :=
   | _, _ => true
   end.
 Definition read_rev (q : c03_read) : N :=
-  match q with QGet _ r _ => r | QList _ _ r _ _ => r | QCount _ _ _ => 0 | QStream _ _ r _ => r end.
+  match q with QGet _ r _ => r | QList _ _ r _ _ => r | QCount _ _ _ => 0 | QStream _ _ r _ => r | QEtcd _ _ r _ _ => r end.
 
 Fixpoint stable_verdict (srt compat : bool) (hv1 hv2 : list (@vrec (option bytes))) (cur1 cur2 floor2 : N) (r1 r2 : list c03_read) : bool :=
   match r1, r2 with
